@@ -76,12 +76,18 @@ def pattern(name: str, A: int, B: int):
             return Fraction(1) if a == b else Fraction(1, 2)
         if name == "half":
             return Fraction(1, 2)
+        if name == "andhi":  # planted strategy on the HIGHEST answer labels (the last strategies in enumeration order)
+            return a == A - 1 and b == B - 1
+        if name == "hilo":
+            return a == 0 and b == B - 1
+        if name == "lohi":
+            return a == A - 1 and b == 0
         raise KeyError(name)
     return [[Fraction(int(v) if isinstance(v, bool) else v) for v in (f(a, b) for b in range(B))] for a in range(A)]
 
 
 PATTERN_ORDER = ["eq", "sh1", "and0", "neq", "lose", "win", "sh2", "heq"]
-CANON_ORDER = ["win", "lose", "eq", "neq", "and0", "or1", "sh1", "sh2", "heq", "half"]
+CANON_ORDER = ["win", "lose", "eq", "neq", "and0", "or1", "sh1", "sh2", "heq", "half", "andhi", "hilo", "lohi"]
 
 
 def pattern_alphabet(A, B, size, order=PATTERN_ORDER):
@@ -278,14 +284,24 @@ def classical_check(case):
 LARGE_QUICK = [[4, 2, 2, 3], [2, 4, 3, 2], [4, 3, 2, 2], [3, 4, 2, 2], [3, 4, 3, 2], [4, 3, 2, 3], [5, 2, 1, 4], [2, 5, 4, 1],
                [4, 4, 3, 3], [2, 2, 5, 4], [2, 2, 4, 5], [3, 3, 4, 4], [2, 3, 6, 4], [3, 2, 4, 6], [1, 4, 3, 3], [4, 1, 3, 3]]
 LARGE_POOL = [[4, 4, 5, 5], [5, 4, 5, 5], [4, 5, 5, 5], [2, 2, 10, 10], [2, 2, 11, 10], [2, 2, 10, 11], [3, 4, 7, 5], [4, 3, 5, 7],
-              [3, 2, 7, 10]]
+              [3, 2, 7, 10],
+              # strategy counts that are NOT multiples of a power of two (2187, 3125, 1296): added after seeded change C07-1, which
+              # dropped the trailing (count mod 256) strategies of the parallel branch
+              [3, 3, 7, 7], [5, 5, 5, 5], [6, 6, 4, 4], [3, 5, 7, 5], [5, 3, 5, 7]]
+POOL_QUICK = [[3, 3, 7, 7]]  # one parallel-branch shape on every change
 
 
 def large_cases(tier, seed):
-    shapes = LARGE_QUICK + (LARGE_POOL if tier == "thorough" else [])
+    shapes = LARGE_QUICK + (LARGE_POOL if tier == "thorough" else POOL_QUICK)
     for shape in shapes:
         A, B, X, Y = shape
         big = min(A ** X, B ** Y) > 1000
+        if big:
+            # planted optimal strategies that use the highest / mixed answer labels for every question
+            for nm in ("andhi", "hilo", "lohi"):
+                yield {"shape": shape, "pred": "pat:" + ",".join([nm] * (X * Y)), "prob": "uniform", "dtype": "f", "pool": True}
+            if tier == "quick":
+                continue
         pats4 = pattern_alphabet(A, B, 4)
         pats2 = pattern_alphabet(A, B, 2)
         preds = []
